@@ -65,7 +65,7 @@ def worker(wid, scratch, queue, tier, results, lock):
                 lines = [ln for ln in out.splitlines() if ln.startswith("VIOLATION") or ln.startswith("KNOWN-FINDING")]
                 summary = [ln for ln in out.splitlines() if ln.startswith(p + " ")]
                 viol = [ln for ln in lines if ln.startswith("VIOLATION")]
-                entry["checks"][p] = {"exit": rc, "violation_lines": (viol + lines)[:5], "summary": (summary[-1] if summary else out[-300:]),
+                entry["checks"][p] = {"exit": rc, "violation_lines": (viol + lines)[:5], "summary": (summary[-1] if summary and rc != 2 else out[-1500:]),
                                       "seconds": round(time.time() - t0, 1)}
                 with lock:
                     print(f"{name}: check {p} {tier}: exit {rc} {'DETECTED' if rc == 1 else ('missed' if rc == 0 else 'ERROR')} "
